@@ -257,6 +257,26 @@ private theorem catC06_of_all {cfg : Cfg} {dest dmax dl src m : Nat} {st st' : S
       fun hc => absurd hc (by decide), fun _ => ?_⟩
     exact ⟨hp.2.2.1, hp.2.2.2.1, hp.2.1, hp.1, hp.2.2.2.2⟩
 
+theorem cells_add (st : St) (p a b : Nat) : cells st p (a + b) = cells st p a ++ cells st (p + a) b := by
+  induction a generalizing p with
+  | zero => simp [cells]
+  | succ a ih =>
+    have e : a + 1 + b = (a + b) + 1 := by omega
+    rw [e]
+    simp only [cells, List.cons_append]
+    rw [ih (p+1)]
+    have e2 : p + 1 + a = p + (a + 1) := by omega
+    rw [e2]
+
+/-- the EOK clause of `CatC06` as ONE list: dest = old dest string ++ the `m` source characters ++ NUL -/
+theorem catC06_result {cfg : Cfg} {dest dmax dl src m : Nat} {st st' : St} {code : Nat}
+    (h : CatC06 cfg dest dmax dl src m st st' code) (hc : code = EOK) :
+    cells st' dest (dl + m + 1) = cells st dest dl ++ cells st src m ++ [0] := by
+  obtain ⟨h1, h2, h3, _⟩ := h.2.2.2.1 hc
+  have h3' : st'.data (dest + (dl + m)) = 0 := by rw [← Nat.add_assoc]; exact h3
+  rw [cells_add, cells_add, h1, h2]
+  simp [cells, h3']
+
 /-- **strcat_s, every placement of a source string of length `n`** (identical pointers included): EOK exactly when
 `dl + n + 1 ≤ dmax` and the cells appended do not meet the cells read; then dest = old dest string ++ source string
 ++ NUL, null-slack zeros behind; ESNOSPC exactly when the result does not fit and the `dmax - dl` cells copied do not
